@@ -13,7 +13,10 @@ legs: MC   TLC walks every statement of the explored set (nesting depth <= 3, tw
            statement object is executed on both data sets.  A sample goes through the TatSu parser as text.
       C2S  random nestings (depth <= 4) over random harness tables and over the #postings / #entries tables of an
            example ledger are recorded (nested rows, materialised rows, IN results with the logged inner column) and
-           replayed by TLC through the actions of BQLSubquery (Trace_BQLSubquery).
+           replayed by TLC through the actions of BQLSubquery (Trace_BQLSubquery).  The IN law (InValue / InLaw /
+           InWhereLaw of Trace_BQLSubquery) is also judged for operands of every datatype class the ledger and a
+           user table with untyped columns offer (metadata values, amounts, positions, sets, the NULL-typed
+           constant, besides the five basic types), half of the subqueries returning no row, in targets and WHERE.
 """
 import datetime
 import decimal
@@ -925,6 +928,8 @@ def run(ctx):
                         'modelled fragment: int / str / bool columns, + - comparisons AND IN count sum min, WHERE, '
                         'ORDER BY, DISTINCT, LIMIT, aliases; ledger columns of other types are judged relationally '
                         '(nested = materialised, IN = membership in the logged column)',
+                        'IN over amounts / positions mixed with values of another class is outside the domain (beancount\'s '
+                        'Amount.__eq__ raises for them): skipped and counted',
                         'base-table scans of the ledger (SELECT cols FROM #postings) are trusted as the model\'s tables (C11)',
                         'TLC 1.8, Json/IOUtils community modules, CPython 3.12']
     only = getattr(ctx, 'only_legs', None)
